@@ -91,7 +91,7 @@ fn token_leg(g: &Grammar, max_len: usize) -> (Acc, u64) {
     (acc0.merge(acc), count + 1)
 }
 
-fn string_leg(g: &Grammar, max_len: usize, rule_too: bool) -> (Acc, u64) {
+pub fn string_leg(g: &Grammar, max_len: usize, rule_too: bool, prop: &'static str, kinds: &'static [DisKind]) -> (Acc, u64) {
     let n = CHARS.len();
     (0..n)
         .into_par_iter()
@@ -101,10 +101,10 @@ fn string_leg(g: &Grammar, max_len: usize, rule_too: bool) -> (Acc, u64) {
             let mut idx = vec![a];
             loop {
                 let text: String = idx.iter().map(|&i| CHARS[i]).collect();
-                record(&mut acc, "C06", &text, "Expr::parse", compare_expr(g, &text), &C06_KINDS);
+                record(&mut acc, prop, &text, "Expr::parse", compare_expr(g, &text), kinds);
                 if rule_too {
                     let rt = format!("// n\n{text}");
-                    record(&mut acc, "C06", &rt, "Rule::parse", compare_rule_expr(g, &rt), &C06_KINDS);
+                    record(&mut acc, prop, &rt, "Rule::parse", compare_rule_expr(g, &rt), kinds);
                 }
                 count += 1;
                 if idx.len() == 3 && count % 5000 == 3 {
@@ -295,7 +295,7 @@ pub fn run(tier: Tier) -> i32 {
     rep.bound("char_string_length", str_len);
     let (a1, n1) = token_leg(&g, tok_len);
     rep.absorb(a1);
-    let (a2, n2) = string_leg(&g, str_len, tier == Tier::Quick || true);
+    let (a2, n2) = string_leg(&g, str_len, true, "C06", &C06_KINDS);
     rep.absorb(a2);
     rep.absorb(boundary_leg(&g));
     let nb = rep.acc.get("boundary_texts");
